@@ -267,7 +267,7 @@ pub fn run(ctx: &Ctx) -> Report {
     if ctx.owns(unit) {
         let mut ds: Vec<i128> = vec![-3_100, -2_991, -2_990, -2_989, -1, 0, 1, 59_899, 59_900, 59_901, 62_000];
         ds.extend([-(1i128 << 40), 1i128 << 40]);
-        for d in ds {
+        for (d, kind) in ds.iter().flat_map(|d| VOUCHERS.iter().map(move |k| (*d, *k))) {
             rep.evaluations += 1;
             let seen = std::cell::Cell::new(0i128);
             let r = catch(|| {
@@ -275,24 +275,24 @@ pub fn run(ctx: &Ctx) -> Report {
                     let now_ms = now.unix_timestamp_nanos() / 1_000_000;
                     seen.set(now_ms);
                     let base = (now_ms + d) as u64;
-                    Ok((base, VOUCH.vouch(base)))
+                    Ok((base, make_voucher(kind, base)))
                 })
                 .map(|vt| vt.get_local_time())
             });
-            let want = (-59_900..=2_990).contains(&(-d));
+            let want = kind == VoucherKind::Genuine && (-59_900..=2_990).contains(&(-d));
             let verdict = match r {
                 Err(p) => Err(format!("now() panicked: {}", p)),
                 Ok(Ok(local)) => {
                     let local_ms = local.assume_utc().unix_timestamp_nanos() / 1_000_000;
                     if !want {
-                        Err(format!("now() accepted base = now{:+} ms", d))
+                        Err(format!("now() accepted base = now{:+} ms with a {:?} voucher", d, kind))
                     } else if local_ms != seen.get() {
                         Err("now() does not report the clock reading it gave the provider".to_string())
                     } else {
                         Ok(())
                     }
                 }
-                Ok(Err(_)) if want => Err(format!("now() rejected base = now{:+} ms", d)),
+                Ok(Err(_)) if want => Err(format!("now() rejected base = now{:+} ms with a genuine voucher", d)),
                 Ok(Err(_)) => Ok(()),
             };
             match verdict {
@@ -300,7 +300,7 @@ pub fn run(ctx: &Ctx) -> Report {
                     rep.count("now_cases", 1);
                     rep.outcome(hash_of(&("now", want)));
                 }
-                Err(e) => rep.violation(Violation { key: format!("C14:now:d={}", d), summary: e.clone(), replay_text: format!("check: now\nd: {}\nobserved: {}\n", d, e) }),
+                Err(e) => rep.violation(Violation { key: format!("C14:now:d={}:{:?}", d, kind), summary: e.clone(), replay_text: format!("check: now\nd: {}\nvoucher: {:?}\nobserved: {}\n", d, kind, e) }),
             }
         }
         // provider error propagates
@@ -312,7 +312,7 @@ pub fn run(ctx: &Ctx) -> Report {
     }
     rep.max_depth = 1;
     rep.note(format!(
-        "C14: {} landmark bases x every ms of [base-60000, base+3100] and of [epoch, epoch+3000]; every base in the top {} of the u64 range x every local in [epoch, epoch+3000 ms]; {} special local times (calendar limits, epoch, i64/u64-nanosecond overflow points) x every base in [local-3100, local+60000]; 5 voucher kinds at the edge differences; now() with 13 provider offsets",
+        "C14: {} landmark bases x every ms of [base-60000, base+3100] and of [epoch, epoch+3000]; every base in the top {} of the u64 range x every local in [epoch, epoch+3000 ms]; {} special local times (calendar limits, epoch, i64/u64-nanosecond overflow points) x every base in [local-3100, local+60000]; 5 voucher kinds at the edge differences; now() with 13 provider offsets x 5 voucher kinds",
         bases.len(), top, special_locals().len()
     ));
     rep
